@@ -360,8 +360,10 @@ class FuncGen:
         base = dict(self.env)
         self.lines.append(f"{ind}if {c}:")
         outs: list[dict | None] = []
+        ends: list[dict] = []  # environment at the end of every arm, fallen through or not
         fell = self.block(ind + "    ")
         outs.append(dict(self.env) if fell else None)
+        ends.append(dict(self.env))
         nel = 0
         while self.g.chance(0.25) and nel < 2 and self.budget > 0:
             nel += 1
@@ -371,17 +373,25 @@ class FuncGen:
             self.kind("elif")
             fell = self.block(ind + "    ")
             outs.append(dict(self.env) if fell else None)
+            ends.append(dict(self.env))
         if self.g.chance(0.6) or nel:
             self.env = dict(base)
             self.lines.append(f"{ind}else:")
             self.kind("else")
             fell = self.block(ind + "    ")
             outs.append(dict(self.env) if fell else None)
+            ends.append(dict(self.env))
         else:
             outs.append(dict(base))
+            ends.append(dict(base))
         self.depth -= 1
         live = [o for o in outs if o is not None]
         if not live:
+            # every arm jumps: what follows is unreachable, and guppy checks unreachable code as if the
+            # jumps fell through — dead code may read only names defined (and not moved) at the end of
+            # *every* arm (it used to see the last arm's names)
+            self.env = {v: info for v, info in ends[0].items()
+                        if all(v in o and o[v][0] == info[0] for o in ends)}
             return False
         # join: keep variables defined (and not moved) on every incoming path
         joined = {}
